@@ -121,9 +121,9 @@ ASSUME BytesToHex(ContextSeal(S6, C6, 256, Aad(256), Pt)) = "dbbfc44ae037864e75f
 \* ---- suite ids and the Tink frame
 ASSUME BytesToHex(KemSuiteId("XWING")) = "4b454d647a"
 ASSUME BytesToHex(HpkeSuiteId([kem |-> "MLKEM1024", kdf |-> "SHA384", aead |-> "CHACHA20POLY1305"])) = "48504b45004200020003"
-ASSUME TinkDecrypt(S1, "TINK", H("01020304"), skR1, H("0101020304") \o HpkeSealDH(S1, pkR1, skE1, Info, <<>>, Pt)[2], Info, NoMLD) = <<TRUE, Pt>>
-ASSUME TinkDecrypt(S1, "CRUNCHY", H("01020304"), skR1, H("0101020304") \o HpkeSealDH(S1, pkR1, skE1, Info, <<>>, Pt)[2], Info, NoMLD)[1] = FALSE
-ASSUME TinkDecrypt(S1, "NO_PREFIX", H("00000000"), skR1, HpkeSealDH(S1, pkR1, skE1, Info, <<>>, Pt)[2], <<>>, NoMLD)[1] = FALSE
+ASSUME HpkeTinkDecrypt(S1, "TINK", H("01020304"), skR1, H("0101020304") \o HpkeSealDH(S1, pkR1, skE1, Info, <<>>, Pt)[2], Info, NoMLD) = <<TRUE, Pt>>
+ASSUME HpkeTinkDecrypt(S1, "CRUNCHY", H("01020304"), skR1, H("0101020304") \o HpkeSealDH(S1, pkR1, skE1, Info, <<>>, Pt)[2], Info, NoMLD)[1] = FALSE
+ASSUME HpkeTinkDecrypt(S1, "NO_PREFIX", H("00000000"), skR1, HpkeSealDH(S1, pkR1, skE1, Info, <<>>, Pt)[2], <<>>, NoMLD)[1] = FALSE
 
 VARIABLE x
 Init == x = 0
